@@ -579,13 +579,13 @@ func (ex *explorer) runPath(prefix []int64, sv *Solver) {
 			ex.msgCount = map[string]int{}
 		}
 		ex.msgCount[key]++
-		keep := ex.msgCount[key] <= 2
+		keep := ex.msgCount[key] <= 6
 		ex.mu.Unlock()
 		if keep {
 			pr := r.result(r.outcome == outcomeViolation)
 			ex.mu.Lock()
 			ex.results = append(ex.results, pr)
-			if len(ex.results) >= 120 {
+			if len(ex.results) >= 300 {
 				ex.stop = true
 				ex.cond.Broadcast()
 			}
